@@ -23,11 +23,12 @@ Inductive stmt (F : Type) :=
 | SIBin (x y : nat) (o : binop)               (* x o= y *)
 | SIScal (x : nat) (k : C)                    (* x *= k *)
 | SIDiv (x : nat) (k : C)                     (* x /= k *)
-| SIAddC (x : nat) (k : C).                   (* x += k *)
+| SIAddC (x : nat) (k : C)                    (* x += k *)
+| SAccum (x : nat) (ys : list nat) (s : option nat).  (* x = Cls.accumulate([ys...], start=s) *)
 Arguments SNew {F}. Arguments SZero {F}. Arguments SBin {F}. Arguments SScalR {F}. Arguments SScalL {F}.
 Arguments SDiv {F}. Arguments SNeg {F}. Arguments SPow {F}. Arguments SAddC {F}. Arguments SRSubC {F}.
 Arguments SCopy {F}. Arguments SAlias {F}. Arguments SIBin {F}. Arguments SIScal {F}. Arguments SIDiv {F}.
-Arguments SIAddC {F}.
+Arguments SIAddC {F}. Arguments SAccum {F}.
 
 Section Prog.
 Variable F : Type.
@@ -88,6 +89,8 @@ Definition step (st : state) (s : stmt F) : state :=
   | SIScal x k => mutate st x (iscale (load st x) k)
   | SIDiv x k => mutate st x (iscale (load st x) (Cinv k))
   | SIAddC x k => mutate st x (iaddc feqb (load st x) k)
+  | SAccum x ys s => bind_new st x (fold_left (fun acc y => iadd feqb small acc (load st y)) ys
+                                      (match s with Some z => load st z | None => [] end))
   end.
 
 Definition dump (st : state) : list (nat * op) := map (fun xo => (fst xo, load st (fst xo))) (env st).
